@@ -525,8 +525,9 @@ class LoopCtx(object):
 class Obligation(object):
     """pc => goal, to be discharged (unsat of pc & not goal)"""
 
-    def __init__(self, name, pc, goal, kind='clause', prop=None, path=None, func=None, info=None):
+    def __init__(self, name, pc, goal, kind='clause', prop=None, path=None, func=None, info=None, cuts=()):
         self.name = name
+        self.cuts = tuple(cuts)
         self.pc = list(pc)
         self.goal = goal
         self.kind = kind
@@ -553,6 +554,7 @@ class Interp(object):
         self.unsupported = []
         self.stats = {'paths': 0, 'prune_checks': 0, 'pruned': 0}
         self.path_prefix = ''
+        self.loopspec_resolver = None
 
     # ---- pruning (only ever on a solver 'unsat' answer) ----------------------
     def _unsat(self, conds):
@@ -1207,11 +1209,14 @@ class Interp(object):
     # ---- loops --------------------------------------------------------------------
     def _loopspec(self, node):
         key = (self.cur_func, getattr(node, '_loop_ordinal', None))
-        return self.loopspecs.get(key)
+        spec = self.loopspecs.get(key)
+        if spec is None and self.loopspec_resolver is not None:
+            # sidecar contracts may also be attached by the *shape* of the loop (kind of statement,
+            # what it iterates over): robust against reordering of independent blocks
+            spec = self.loopspec_resolver(self.cur_func, node)
+        return spec
 
     def x_While(self, st, eid, node):
-        if node.orelse:
-            raise Unsupported('while-else', node)
         spec = self._loopspec(node)
         if spec is None:
             raise Unsupported('while loop without invariant (loop #%s of %s)' %
@@ -1219,8 +1224,6 @@ class Interp(object):
         return self._loop(st, eid, node, spec, kind='while')
 
     def x_For(self, st, eid, node):
-        if node.orelse:
-            raise Unsupported('for-else', node)
         out = []
         for (s, it) in self.eval(st, eid, node.iter):
             if isinstance(it, Exc):
@@ -1274,7 +1277,15 @@ class Interp(object):
                         else:
                             nxt.append((s2, o2))
             states = nxt
-        return [(s, NEXT if o is BREAK else o) for (s, o) in states]
+        out = []
+        for (s, o) in states:
+            if o is BREAK:
+                out.append((s, NEXT))
+            elif o is NEXT and node.orelse:
+                out.extend(self.exec_block(s, eid, node.orelse))
+            else:
+                out.append((s, o))
+        return out
 
     def _assigned_names(self, node):
         names = set()
@@ -1292,12 +1303,21 @@ class Interp(object):
         idx0 = IntV(0) if kind == 'forseq' else None
         # 1. invariant holds on entry
         ctx = LoopCtx(self, st, entry, self.fn_pre, idx=idx0.term if idx0 else None, seq=seq, eid=eid, node=node)
-        for (nm, g) in spec.invariant(ctx):
+        try:
+            inv0 = spec.invariant(ctx)
+        except Unsupported:
+            raise
+        except Exception as e:
+            raise Unsupported('loop contract %r does not fit loop #%s of %s (%s: %s)' %
+                              (spec.name, ordinal, fq, e.__class__.__name__, e), node)
+        for (nm, g) in inv0:
             self.obligations.append(Obligation('%s/%s@entry' % (tag, nm), st.pc, g, kind='loop-entry',
                                                func=fq, path=self.path_prefix + '/'.join(st.labels)))
         # 2. havoc everything the loop may modify
         h = st.fork()
         h.label('loop%s' % ordinal)
+        # cut point: premises before a loop havoc form a self-contained prefix of the path condition
+        h.ghost['cuts'] = tuple(h.ghost.get('cuts', ())) + (len(h.pc),)
         modified = self._assigned_names(node)
         for nm in sorted(modified):
             cur = h.lookup(eid, nm)
@@ -1326,7 +1346,7 @@ class Interp(object):
                 elif c:
                     self._loop_body(s, eid, node, spec, entry, tag, None, seq, results)
                 else:
-                    results.append((s, NEXT))
+                    results.append((s, 'EXIT'))
         elif kind == 'forseq':
             for (s, more) in self.branch(h, idx < seq.length):
                 if more:
@@ -1337,7 +1357,7 @@ class Interp(object):
                             continue
                         self._loop_body(s1, eid, node, spec, entry, tag, idx + 1, seq, results)
                 else:
-                    results.append((s, NEXT))
+                    results.append((s, 'EXIT'))
         elif kind == 'foriter':
             nextfn = seq.tag[1]
             for (s, item) in nextfn(self, h):
@@ -1350,7 +1370,7 @@ class Interp(object):
                     continue
                 if isinstance(item, Exc):
                     if item.kind == 'StopIteration':
-                        results.append((s, NEXT))
+                        results.append((s, 'EXIT'))
                     else:
                         results.append((s, ('raise', item)))
                     continue
@@ -1359,7 +1379,17 @@ class Interp(object):
                         results.append((s1, ('raise', e1)))
                         continue
                     self._loop_body(s1, eid, node, spec, entry, tag, None, seq, results)
-        return results
+        # normal exhaustion of the loop runs the else-block; `break` (recorded as NEXT) skips it
+        out = []
+        for (s, o) in results:
+            if o == 'EXIT':
+                if node.orelse:
+                    out.extend(self.exec_block(s, eid, node.orelse))
+                else:
+                    out.append((s, NEXT))
+            else:
+                out.append((s, o))
+        return out
 
     def _loop_body(self, s, eid, node, spec, entry, tag, idx_next, seq, results):
         for (s2, o2) in self.exec_block(s, eid, node.body):
